@@ -64,14 +64,21 @@ def byteview(t, depth=0):
 # -- literal tables -------------------------------------------------------------------------
 
 def _table_item(t):
-    """the sub-tree `ok(next(<iterator over an array literal>))` inside t, with the array's element trees"""
+    """the sub-tree `ok(next(<iterator over an array literal>))` inside t, with the items it stands for (the array's
+    elements, or (index, element) pairs under enumerate())"""
     for x in leaves(t):
         if x[0] == "ok" and x[1][0] == "call" and x[1][1].rsplit("::", 1)[-1] == "next" and x[1][2]:
             it = x[1][2][0]
+            enumerated = False
             for y in leaves(it):
                 if y[0] == "agg" and y[1][0] == "array" and y[2]:
-                    return x, list(y[2])
-                if y[0] == "call" and y[1].rsplit("::", 1)[-1] in ("zip", "chain", "filter", "map"):
+                    items = list(y[2])
+                    if enumerated:
+                        items = [("agg", ("tuple",), (("const", "usize", i), e)) for i, e in enumerate(items)]
+                    return x, items
+                if y[0] == "call" and y[1].rsplit("::", 1)[-1] == "enumerate":
+                    enumerated = True
+                if y[0] == "call" and y[1].rsplit("::", 1)[-1] in ("zip", "chain", "filter", "map", "rev", "skip", "step_by"):
                     break
     return None
 
